@@ -19,7 +19,9 @@ CbT == << [contains |-> "confirm", notcontains |-> "", re |-> "", insens |-> TRU
           [contains |-> "yes/no", notcontains |-> "", re |-> "", insens |-> TRUE,  once |-> TRUE, complete |-> FALSE, reset |-> FALSE],
           [contains |-> "(yes/no)", notcontains |-> "", re |-> "digit", insens |-> TRUE, once |-> FALSE, complete |-> FALSE, reset |-> TRUE] >>
 Segs == << "confirm-q", "password-q", "yesno-q", "digit-line", "plain", "more", "finished", "done-upper", "done-lower", "password-again", "two-triggers",
-          "pw-upper-q", "more-upper" >>       \* the excluded text in capitals: an insensitive not-contains must still see it
+          "pw-upper-q", "more-upper", "confirm-long", "password-long" >>       \* the excluded text in capitals: an insensitive not-contains must still see it;
+          \* "...-long": the question, then a listing longer than the channel's prompt search depth in the same piece of output (a trigger
+          \* - or the text that excludes one - holds wherever it stands in the accumulated output)
 \* directed part (the first 27 scenarios): for every template its own trigger shown twice (a once-callback must not fire again,
 \* a repeatable one must), the same followed by a completing callback, and the trigger interleaved with the text that excludes it
 Trig == << "confirm-q", "confirm-q", "password-q", "yesno-q", "yesno-q", "digit-line", "finished", "finished", "done-upper" >>
